@@ -77,6 +77,57 @@ func gen(r *corr.Rand) (setup []string, threads [][]string) {
 	return
 }
 
+// genList: listing against renames, creations and removals inside the listed directory (the sort of a
+// listing compares the children's names, which Rename rewrites)
+func genList(r *corr.Rand) (setup []string, threads [][]string) {
+	h := corr.HexS
+	setup = []string{"mkdirall " + h("/d/s") + " 493", "create " + h("/d/f"), "create " + h("/d/g"), "create " + h("/d/k")}
+	in := []string{"/d/f", "/d/g", "/d/k", "/d/m", "/d/n"}
+	nt := 2 + r.Intn(3)
+	for t := 0; t < nt; t++ {
+		var ops []string
+		if t == 0 || r.Chance(40) {
+			ops = append(ops, "open "+h("/d"))
+			for k := 0; k < 2+r.Intn(3); k++ {
+				ops = append(ops, corr.Pick(r, []string{"h.readdir 0 -1", "h.readdirnames 0 -1", "h.readdir 0 2", "h.stat 0"}))
+			}
+		} else {
+			for k := 0; k < 2+r.Intn(4); k++ {
+				switch q := r.Intn(100); {
+				case q < 55:
+					ops = append(ops, "rename "+h(corr.Pick(r, in))+" "+h(corr.Pick(r, in)))
+				case q < 65:
+					ops = append(ops, "rename "+h("/d/s")+" "+h("/d/t"))
+				case q < 75:
+					ops = append(ops, "create "+h(corr.Pick(r, in)))
+				case q < 85:
+					ops = append(ops, "remove "+h(corr.Pick(r, in)))
+				default:
+					ops = append(ops, "chmod "+h(corr.Pick(r, in))+" 384")
+				}
+			}
+		}
+		threads = append(threads, ops)
+	}
+	return
+}
+
+// genIO: private handles of several goroutines on one file
+func genIO(r *corr.Rand) (setup []string, threads [][]string) {
+	h := corr.HexS
+	setup = []string{"create " + h("/a"), "h.write 0 68656c6c6f"}
+	nt := 2 + r.Intn(3)
+	for t := 0; t < nt; t++ {
+		ops := []string{fmt.Sprintf("openfile %s %d 420", h("/a"), corr.Pick(r, []int{2, 2, 0, 0x402}))}
+		for k := 0; k < 2+r.Intn(4); k++ {
+			ops = append(ops, corr.Pick(r, []string{"h.write 0 5858", "h.read 0 4", "h.seek 0 0 2", "h.seek 0 9 0", "h.seek 0 -1 2", "h.trunc 0 1", "h.trunc 0 7",
+				"h.stat 0", "h.readat 0 2 0", "h.writeat 0 59 3", "h.writeat 0 59 12", "stat " + h("/a"), "h.sync 0", "h.name 0"}))
+		}
+		threads = append(threads, ops)
+	}
+	return
+}
+
 func runOne(setup []string, threads [][]string) {
 	fs := afero.NewMemMapFs()
 	sr := engines.NewRunner(fs)
@@ -112,7 +163,16 @@ func main() {
 		rng := corr.NewRand(seed)
 		w := bufio.NewWriter(os.Stderr)
 		for i := 0; i < n; i++ {
-			setup, threads := gen(rng.Fork())
+			var setup []string
+			var threads [][]string
+			switch i % 4 {
+			case 1:
+				setup, threads = genList(rng.Fork())
+			case 3:
+				setup, threads = genIO(rng.Fork())
+			default:
+				setup, threads = gen(rng.Fork())
+			}
 			var parts []string
 			for ti, t := range threads {
 				parts = append(parts, fmt.Sprintf("t%d: %s", ti, strings.Join(t, " ; ")))
